@@ -98,6 +98,7 @@ def run(tier):
             L = np.tile(base, (1, C_ // 2 + 1))[:, :C_].copy()
             Rt = np.roll(L, int(rng.randint(a, b + 1)), axis=1)
             b = max(b, a + 3)
+            vmax = 65536
         if k % 3 == 0:
             mL = (rng.rand(R_, C_) < 0.03) * rng.choice([1, 2], size=(R_, C_))
             mR = (rng.rand(R_, C_) < 0.03) * rng.choice([1, 2], size=(R_, C_))
